@@ -531,6 +531,13 @@ class Evaluator:
             else:
                 raise OutOfSubset('`is` on non-None')
             return z3.Not(r) if isinstance(op, ast.IsNot) else r
+        if isinstance(op, (ast.Eq, ast.NotEq)) and not ctx.spec and isinstance(a.ty, TRec) and a.ty == b.ty and self.engine is not None:
+            # `x == y` between objects of a class whose __eq__ is under contract in this module: a call of that contract (in code only;
+            # in contract clauses == on records stays structural)
+            q = self.engine.method_qual(a.ty, '__eq__')
+            if q and self.engine.contracts[q].d.get('pure'):
+                r = truthy(self.engine.call_bound(q, [('self', a)], [b], {}, ctx, ctx.line))
+                return z3.Not(r) if isinstance(op, ast.NotEq) else r
         if isinstance(op, ast.Eq):
             return values_equal(a, b)
         if isinstance(op, ast.NotEq):
